@@ -1,79 +1,8 @@
-"""Per-property configuration: Lean module, cited facts, differential components, oracles."""
-import oracles as O
+"""Loads every property definition from lib/propdefs/*.py (each calls propbase.reg)."""
+import glob, importlib, os
+from propbase import PROPS, Comp, Prop, reg
 
-
-class Comp:
-    def __init__(self, name, n_quick, n_thorough, oracle=None, nontrivial=None, stats=None, differential=True,
-                 header_lines=1, chunk_min=10, race=False, env=None, timeout=600, shrink=True):
-        self.name, self.n_quick, self.n_thorough = name, n_quick, n_thorough
-        self.oracle, self.nontrivial, self.stats = oracle, nontrivial, stats
-        self.differential, self.header_lines, self.chunk_min = differential, header_lines, chunk_min
-        self.race, self.env, self.timeout, self.shrink = race, env, timeout, shrink
-
-
-class Prop:
-    def __init__(self, id, lean_module, facts, components, rule, trusted_base=(), assumptions=(), fact_tags=(),
-                 extra=None, needs_race=False):
-        self.id, self.lean_module, self.facts, self.components = id, lean_module, list(facts), list(components)
-        self.rule, self.trusted_base, self.assumptions = rule, list(trusted_base), list(assumptions)
-        self.fact_tags, self.extra, self.needs_race = list(fact_tags), extra, needs_race
-
-
-PROPS = {}
-
-
-def reg(p):
-    PROPS[p.id] = p
-
-
-WAL = Comp('wal', n_quick=400, n_thorough=12000, oracle=O.wal_oracle, nontrivial=O.wal_nontrivial, stats=O.wal_stats)
-
-reg(Prop('C09', 'Kevo.Props.C09',
-         facts=['consts:wal.*', 'facts:wal.*'],
-         components=[WAL],
-         fact_tags=['wal'],
-         rule='component wal: random programs of append/batch/rotate/reopen/replay/from over the real pkg/wal and the Lean '
-              'model (Kevo.Model.Wal/WalLog); compared: returned sequence numbers and error classes, the bytes of every log '
-              'file, ReplayWALDir and GetEntriesFrom output; sizes at -2..+2 of k*MaxRecordSize, keys spilling over the first '
-              'fragment, empty keys/values, unknown op codes, batches beyond the record limit; oracle: replay == appended '
-              '(Python spec). A case is non-trivial if it replays >= 3 entries and contains a batch, a rotation/reopen or a '
-              'fragmented entry; distinct by script hash.',
-         trusted_base=['crc32 treated as an arbitrary function into [0,2^32) in the theorems; the executable CRC-32 is used only by the driver'],
-         assumptions=['bufio.Writer/os.File deliver the bytes written (I/O errors not modelled)',
-                      'the correspondence between Kevo.Model.Wal and pkg/wal is sampled (differential), not proved']))
-
-SST = Comp('sst', n_quick=450, n_thorough=12000, oracle=O.sst_oracle, nontrivial=O.sst_nontrivial, stats=O.sst_stats)
-
-reg(Prop('C11', 'Kevo.Props.C11',
-         facts=['consts:block.*', 'consts:footer.*', 'consts:sstable.*', 'facts:sstable.*'],
-         components=[SST],
-         fact_tags=['sstable', 'block', 'footer', 'bloom'],
-         rule='component sst: blocks (1..100 entries around the restart interval 15/16/17/31/32/33) and tables (1..380 entries, '
-              'values to 9 KB so that several 64 KB blocks are cut, with and without bloom filters) built with the real '
-              'block.Builder / sstable.Writer and with Kevo.Model.Block/Table; compared: serialised block bytes (crc), table '
-              'file bytes (length + crc with the footer timestamp/checksum zeroed), the measured bloom parameters, every '
-              'SeekToFirst/SeekToLast/Seek/Next result (valid,key,value,seq,tombstone) at block and table level, full '
-              'iteration, Reader.Get for present/absent/between/before/after targets, rejection of non-ascending input; '
-              'oracle: specification iterator over the written list (Python). Non-trivial: >= 3 entries built; distinct by script hash.',
-         trusted_base=['xxhash64 and fnv1a64 are arbitrary functions (into [0,2^64)) in the theorems; executable versions only in the driver',
-                       'bloom sizing (floating point) is not modelled: the two resulting integers are compared with the running code'],
-         assumptions=['os file I/O returns the bytes written', 'correspondence Kevo.Model.Block/Table ~ pkg/sstable is sampled (differential), not proved',
-                      'keys are non-empty and at most 65535 bytes, values shorter than 2^32-1 (format limits; excluded points: see DESIGN C11)']))
-
-ENGINE = Comp('engine', n_quick=320, n_thorough=8000, oracle=O.engine_oracle, nontrivial=O.engine_nontrivial, stats=O.engine_stats,
-              chunk_min=10, timeout=900)
-_ENGINE_RULE = ('component engine: random programs (10-60 ops) of put/delete/get/raw batch/transaction commit/flush/reopen/range scan '
-                'on the real EngineFacade (memtable sizes 64 B .. 1 MB so that data moves between the active table, immutable tables '
-                'and SSTables at different moments; background flush awaited) and on Kevo.Model.Engine; compared after every call: result, '
-                'storage_last_sequence, WAL next sequence; after every program: replayed log contents, SSTable list and contents (crc), '
-                'full scan before and after a reopen, gets of 8 fixed keys; oracle: abstract map + strictly increasing stamps + scan '
-                'specification (Python). Non-trivial: a key that was overwritten/deleted is read after a flush or reopen; distinct by script hash.')
-_ENGINE_ASSUME = ['background flush is observed only at quiescence (concurrency: C06/C07)',
-                  'the byte formats below the logical model are covered by C09 (log) and C11 (tables)',
-                  'keys are non-empty; batch entries fit one log record',
-                  'correspondence Kevo.Model.Engine ~ pkg/engine is sampled (differential), not proved']
-
-reg(Prop('C01', 'Kevo.Props.C01', facts=['facts:storage.*'], components=[ENGINE], fact_tags=['storage', 'memtable'],
-         rule=_ENGINE_RULE, assumptions=_ENGINE_ASSUME))
-reg(Prop('C08', 'Kevo.Props.C08', facts=['facts:storage.*'], components=[ENGINE], fact_tags=['storage', 'memtable'],
-         rule=_ENGINE_RULE, assumptions=_ENGINE_ASSUME))
+for _f in sorted(glob.glob(os.path.join(os.path.dirname(os.path.abspath(__file__)), 'propdefs', '*.py'))):
+    _m = os.path.basename(_f)[:-3]
+    if _m != '__init__':
+        importlib.import_module('propdefs.' + _m)
